@@ -219,10 +219,10 @@ func (c *Ctx) usable(r callResult) bool {
 
 type resultView struct {
 	URL, Title, Text, HTML string
-	WordCount             int
-	Images                []string
-	Markup                string
-	Prev, Next            string
+	WordCount              int
+	Images                 []string
+	Markup                 string
+	Prev, Next             string
 }
 
 func viewOf(res *distiller.Result) resultView {
